@@ -7,6 +7,8 @@ open VibeProof VibeProof.Proto VibeProof.Codec VibeProof.Dml
 `(updparent noaction|cascade|setnull (cols…) (pcols…) (children R…) P P')` → same
 `(inschild (cols…) (pcols…) (parents R…) C)` → `(accept)` | `(reject)`
 `(selfdel (cols…) (pcols…) (rows R…) i)` → `(ok (R…))`
+`(casc (fks (child parent (cols…) (pcols…) action)…) (tables (R…)…) t (sel V…))` → `(ok (R…)…)` | `(reject)` | `(fuel)`:
+  whole DELETE of the rows of table t whose first column is in `sel`, recursive cascade, fuel = rows + tables + 1
 -/
 
 def decAction : String → Option Action
@@ -37,6 +39,20 @@ def handle : List Sx → Sx
   | [.atom "selfdel", c, pc, .list (.atom "rows" :: rs), i] =>
     match nats c, nats pc, rs.mapM decRow, i.nat? with
     | some c, some pc, some rs, some i => res (some (Fk.deleteSelfRefAsCoded { cols := c, pcols := pc } rs i))
+    | _, _, _, _ => .atom "bad-request"
+  | [.atom "casc", .list (.atom "fks" :: fs), .list (.atom "tables" :: ts), t, .list (.atom "sel" :: ids)] =>
+    let decFk : Sx → Option FkDecl
+      | .list [c, p, cols, pcols, .atom a] => do
+        pure { child := ← c.nat?, parent := ← p.nat?, cols := ← nats cols, pcols := ← nats pcols, onDelete := ← decAction a }
+      | _ => none
+    match fs.mapM decFk, ts.mapM decRows, t.nat?, ids.mapM decValueSx with
+    | some fks, some tabs, some t, some ids =>
+      let db : Db := fun i => tabs.getD i []
+      let fuel := (tabs.map List.length).sum + tabs.length + 1
+      match deleteWithFks fks fuel db t (fun r => ids.contains (r.getD 0 Value.null)) with
+      | .ok db' => .list (.atom "ok" :: (List.range tabs.length).map (fun i => encRows (db' i)))
+      | .error .reject => .list [.atom "reject"]
+      | .error .fuel => .list [.atom "fuel"]
     | _, _, _, _ => .atom "bad-request"
   | _ => .atom "bad-request"
 
